@@ -16,6 +16,7 @@ for D in "$@"; do
     P="$D/$V.patch.diff"; [ -f "$P" ] || continue
     id=$(basename "$D")
     demo=$(ls "$D"/demo_*_"$V".rs 2>/dev/null | head -1)
+    [ "${id:0:1}" = "F" ] && demo=""
     name="$id-$V"
     cd $WT && git checkout -q -- . && rm -f tests/demo_*.rs && mkdir -p tests
     pre="-"; suite="-"; post="-"; build="-"
